@@ -68,6 +68,13 @@ func (g *Gateway) subscriptionHandler(w http.ResponseWriter, r *http.Request) {
 
 	subDict := make(subscriptionDict)
 
+	// whatever happens to the close frame below, release the connection and
+	// stop the running handlers
+	defer func() {
+		conn.Close()
+		subDict.CleanAll()
+	}()
+
 	defer func() {
 		defer func() {
 			recover()
